@@ -393,6 +393,7 @@ where
                                     )
                                     .num_microseconds()
                                     .unwrap_or_default()
+                                    .max(0) // threadtime can be before the start of the year (e.g. 12-31 parsed as last year)
                                     as u64;
                                 self.threadtime_last_monotonic_timestamp = timestamp_us;
                                 (timestamp_us, self.recorded_start_time_us + timestamp_us)
